@@ -625,6 +625,84 @@ for name, member, accepted in (("enum<-signal-of-the-same-enum", _StateA.Q, True
     con.cases.append(c)
 
 
+# scalar ports: a Bit is a std_logic, a bool a boolean, an int an integer -- `a => x` between two of them is ill-typed although the
+# ASSIGNMENT converts (cohdl_bool_to_std_logic ...); an element of a vector signal is a Bit (`v(3)` is a std_logic)
+from cohdl import Bit as _BitT  # noqa: E402
+from cohdl._core._boolean import _Boolean as _BoolT  # noqa: E402
+
+
+def _scalar(kind):
+    return SObj(_BitT, _val=None) if kind == "bit" else SObj(_BoolT, _value=None)
+
+
+def scalar_shapes(port_kind, actual_kind, element_of_vector):
+    def make_entity(env):
+        formal = SObj(_Formal, f_name="a", f_out=False, _default="DECL-DEFAULT", f_decayed=_scalar(port_kind))
+        formal.fields["width"] = None
+        info = SObj(_Info, name="ent", attributes={}, extern=True, instantiated=None, ports={"a": formal}, generics={}, architecture=None)
+        return SObj(CTX.Entity, _cohdl_info=info)
+
+    def make_actual(env):
+        if element_of_vector:
+            root = SObj(Signal, f_tag="root", _default="DEFAULT-root", _ref_spec=[], f_decayed=_vec(_BV, 4, 0))
+            root.fields["_root"] = root
+            root.fields["width"] = 4
+            view = SObj(Signal, f_tag="element", _default="DEFAULT-view", _ref_spec=["<index>"], f_decayed=_scalar(actual_kind), _root=root)
+            view.fields["width"] = None
+            return view
+        root = SObj(Signal, f_tag="root", _default="DEFAULT-root", _ref_spec=[], f_decayed=_scalar(actual_kind))
+        root.fields["_root"] = root
+        root.fields["width"] = None
+        return root
+
+    return [Built([], make_entity, lambda a: "<entity>", lambda a: None)], {"a": Built([], make_actual, lambda a: "<actual>", lambda a: None)}
+
+
+def _scalar_assign(it, self, value):
+    return None  # the ASSIGNMENT between Bit and bool (either direction) is legal: the association is what is judged here
+
+
+for name, pk, ak, elem, accepted in (("bit<-bit-signal", "bit", "bit", False, True), ("bool<-bool-signal", "bool", "bool", False, True), ("bit<-element-of-bitvector-signal", "bit", "bit", True, True),
+                                    ("bool<-bit-signal", "bool", "bit", False, False), ("bit<-bool-signal", "bit", "bool", False, False), ("bool<-element-of-bitvector-signal", "bool", "bit", True, False)):
+    shapes, kw = scalar_shapes(pk, ak, elem)
+    c = Case(f"connect-type:{name}", shapes, typed_spec(accepted), kwargs=kw)
+    c.native = False
+    if not accepted:
+        c.may_reject = AssertionError
+    c.models = [
+        (CTX.Block.__dict__["__init__"], lambda it, self, *a, **k: None),
+        (CTX._register_block, lambda it, blk: None),
+        (_TQB.__dict__["decay"], _decay_model),
+        (_BitT.__dict__["_assign"], _scalar_assign),
+        (_BoolT.__dict__["_assign"], _scalar_assign),
+    ]
+    c.setup = _init_setup
+    c.custom_replay = "contracts.c12_instances.replay_scalar_port"
+    con.cases.append(c)
+
+_SCALAR_PORT_DESIGN = '''
+from cohdl import Entity, Port, Bit, std
+class Sub(Entity, extern=True):
+    a = Port.input(bool)
+class Top(Entity):
+    x = Port.input(Bit)
+    def architecture(self):
+        Sub(a=self.x)
+try:
+    t = std.VhdlCompiler.to_string(Top)
+    print("ACCEPTED", [l.strip() for l in t.splitlines() if "=> x" in l or "x :" in l])
+except AssertionError:
+    print("REJECTED")
+'''
+
+
+def replay_scalar_port(payload):
+    from contracts.c06_extra import _run_design
+
+    rc, out = _run_design(_SCALAR_PORT_DESIGN)
+    return {"reproduced": "ACCEPTED" in out, "detail": "a std_logic signal connected to a boolean port (`a => x`): " + out[-120:]}
+
+
 # the same trial in the front end (out.Entity.__init__, executed for every instance when its parent is converted)
 from cohdl._compiler.frontend import _prepare_ast_out as _OUT  # noqa: E402
 
